@@ -124,6 +124,12 @@ def make_ops():
     A(dict(op="scalar"))
     A(dict(op="from_superset", letters="bc"))
     A(dict(op="from_superset", letters="bz", ill=True))
+    A(dict(op="from_superset", letters="bb", ill=True))
+    A(dict(op="ctor-repeated-subset", how="get_subset", ill=True))
+    A(dict(op="ctor-repeated-subset", how="getitem", ill=True))
+    for tgt in ("abc", "ca", "cab"):
+        A(dict(op="cast-mismatched", tgt=tgt, n=1))
+        A(dict(op="cast-mismatched", tgt=tgt, n=2))
     A(dict(op="from_superset_vals", letters="cb", shape="wrong", ill=True))
     # --- operators into r2
     for x, y in ((0, 1), (1, 0), (0, 2), (2, 1), (2, 2)):
@@ -257,6 +263,24 @@ def apply_op(st, op, check):
             if op["use"] == "values-right":
                 return FlodymArray(dims=D0, values=nd(shape_now))
             return FlodymArray.full(D0, 2.5)
+        if name == "ctor-repeated-subset":
+            dest = 2
+            D0 = DS("abc")
+            sub = D0.get_subset(("a", "c", "a")) if op["how"] == "get_subset" else D0["b", "a", "b"]
+            return FlodymArray(dims=sub)
+        if name == "cast-mismatched":
+            # the source holds a dimension with the letter of a target dimension but FEWER items (a subset
+            # that kept its letter): the cast must raise, or return an array with the shape of its dims
+            dest = 2
+            n = op["n"]
+            from flodym import DimensionSet as _DSet
+
+            src_dims = _DSet(dim_list=[S.make_dimension("c", ITEMS["c"][:n] if n <= len(ITEMS["c"]) else ITEMS["c"]), S.make_dimension("a", ITEMS["a"])])
+            if n == 2:  # same count, other items: b has 3 items, take a 2-item b
+                src_dims = _DSet(dim_list=[S.make_dimension("b", ITEMS["b"][:2]), S.make_dimension("a", ITEMS["a"])])
+            src = FlodymArray(dims=src_dims, values=nd(tuple(src_dims.shape)))
+            tgt = op["tgt"] if n == 1 else "ab" + ("c" if "c" in op["tgt"] else "")
+            return src.cast_to(DS(tgt))
         if name == "ctor-dup-letters":
             dest = 2
             d1 = S.make_dimension("a", ITEMS["a"])
